@@ -616,6 +616,13 @@ func (p *twkbParser) nextGeometryCollection() (GeometryCollection, error) {
 			return GeometryCollection{}, err
 		}
 		p.pos += nbytes // Sub-parser's geometry has been read, so ensure it is skipped.
+		if subParser.isEmpty {
+			// An empty member has no extended precision header, so its
+			// coordinates type is unknown (parsed as XY). Give it the
+			// collection's type, otherwise NewGeometryCollection would
+			// strip Z and M from all the other members.
+			g = g.ForceCoordinatesType(p.ctype)
+		}
 		geoms = append(geoms, g)
 	}
 	return NewGeometryCollection(geoms), nil
